@@ -59,7 +59,8 @@ def compare(ctx, text, ff, base, opt):
     rb = G.run_pipeline(text, b_opts)
     ctx.evaluations += 2
     if ra.status != rb.status:
-        return ("status", f"{opt}: run without it {ra.status}, with it {rb.status} ({str(rb.exc)[:80]})")
+        empty = ra.status == "ok" and not any(l.startswith(("ATOM", "HETATM")) for l in (ra.pqr or "").splitlines())
+        return ("status" if not empty else "status(no-atom-has-parameters)", f"{opt}: run without it {ra.status}, with it {rb.status} ({str(rb.exc)[:80]})")
     if ra.status != "ok":
         return None
     wa, wb = "--whitespace" in a_opts, "--whitespace" in b_opts
